@@ -57,4 +57,10 @@ public class BigRat {
     /** true iff the string is a syntactically canonical rational */
     @TLAPlusOperator(identifier = "RIsRat", module = "BigRat", warn = false)
     public static Value risrat(Value a) { try { if (!(a instanceof StringValue)) return BoolValue.ValFalse; Q x = parse(a); return ((StringValue) str(x)).val.equals(((StringValue) a).val) ? BoolValue.ValTrue : BoolValue.ValFalse; } catch (RuntimeException e) { return BoolValue.ValFalse; } }
+    @TLAPlusOperator(identifier = "RChars", module = "BigRat", warn = false)
+    public static Value rchars(Value a) { String s = ((StringValue) a).val.toString(); Value[] v = new Value[s.length()];
+        for (int i = 0; i < v.length; i++) v[i] = new StringValue(s.substring(i, i + 1)); return new TupleValue(v); }
+    @TLAPlusOperator(identifier = "RJoin", module = "BigRat", warn = false)
+    public static Value rjoin(Value a) { TupleValue t = (TupleValue) a.toTuple(); StringBuilder b = new StringBuilder();
+        for (Value v : t.elems) b.append(((StringValue) v).val.toString()); return new StringValue(b.toString()); }
 }
